@@ -432,22 +432,33 @@ def key_agreement(ctx):
     if gos is None or go is None:
         raise AnalysisError("observation builders vanished")
 
-    def keys(fi):
-        lit, loops = set(), set()
+    def keys(fi_raw):
+        fi = ctx.norm.flat(fi_raw)
+        lit, feat = set(), set()
         for n in own_nodes(fi.node):
             if isinstance(n, ast.Dict):
                 for k in n.keys:
-                    if isinstance(k, ast.Attribute) or isinstance(k, ast.Constant):
+                    if isinstance(k, (ast.Attribute, ast.Constant)):
                         lit.add(ast.unparse(k))
+            its = []
             if isinstance(n, ast.For):
-                for m in ast.walk(n):
-                    if isinstance(m, ast.Assign) and isinstance(m.targets[0], ast.Subscript):
-                        loops.add((ast.unparse(n.iter), ast.unparse(m.targets[0].slice)))
-        return lit, loops
+                its = [(n.iter, n.target, n)]
+            elif isinstance(n, (ast.ListComp, ast.GeneratorExp, ast.DictComp, ast.SetComp)):
+                its = [(g.iter, g.target, n) for g in n.generators]
+            for it, tgt, scope in its:
+                src = ctx.norm.xtext(fi, it).replace(" ", "")
+                if src.endswith("composite_observer.features.items()") or src.endswith("composite_observer.features"):
+                    first = tgt.elts[0] if isinstance(tgt, ast.Tuple) else tgt
+                    if isinstance(first, ast.Name) and any(
+                        isinstance(x, ast.Attribute) and x.attr == "value" and isinstance(x.value, ast.Name) and x.value.id == first.id
+                        for x in ast.walk(scope)
+                    ):
+                        feat.add("composite_observer.features:<feature_type>.value")
+        return lit, feat
 
     a, b = keys(gos), keys(go)
-    if a[0] == b[0] and a[1] == b[1] and a[0]:
-        chk.ok("R18.d", go.qualname, go.loc(), f"keys {sorted(a[0])} + loop over {sorted(x[0] for x in a[1])} in both")
+    if a[0] == b[0] and a[1] == b[1] and a[0] and a[1]:
+        chk.ok("R18.d", go.qualname, go.loc(), f"keys {sorted(a[0])} + one key per composite feature type in both")
     else:
         chk.violation(
             "R18.d", go, None,
@@ -456,21 +467,70 @@ def key_agreement(ctx):
 
 
 # --------------------------------------------------------------------- R18.e
+def _module_const(ctx, fi, e):
+    """Resolves a module-level constant name to its value expression."""
+    seen = 0
+    while isinstance(e, ast.Name) and e.id in fi.module.assigns and seen < 4:
+        e = fi.module.assigns[e.id]
+        seen += 1
+    return e
+
+
+def _fill_values(ctx, ff, f, pv):
+    """(default fill expr, removed-nodes fill expr) from the expression
+    passed as padding_value: a defaultdict with an override, or a helper /
+    conditional keyed on the removed-nodes key."""
+    if pv is None:
+        return None, None
+    # (1) dict lookup
+    if isinstance(pv, ast.Subscript) and isinstance(pv.value, ast.Name):
+        dname = pv.value.id
+        default = mask = None
+        for n in own_nodes(ff.node):
+            if isinstance(n, (ast.Assign, ast.AnnAssign)):
+                t = n.targets[0] if isinstance(n, ast.Assign) else n.target
+                if isinstance(t, ast.Name) and t.id == dname and isinstance(n.value, ast.Call) and (dotted(n.value.func) or "").endswith("defaultdict") and n.value.args:
+                    lam = n.value.args[0]
+                    if isinstance(lam, ast.Lambda):
+                        default = _module_const(ctx, f, lam.body)
+                if isinstance(t, ast.Subscript) and isinstance(t.value, ast.Name) and t.value.id == dname and "REMOVED_NODES" in ast.unparse(_module_const(ctx, f, t.slice)):
+                    mask = _module_const(ctx, f, n.value)
+        return default, mask
+    # (2) helper call / conditional expression
+    tests = []
+    if isinstance(pv, ast.Call):
+        ts, _ = ctx.res.callees(ff, pv, ff.cls)
+        if len(ts) == 1:
+            h = ts[0]
+            default = mask = None
+            for n in own_nodes(h.node):
+                if isinstance(n, ast.If) and len(n.body) == 1 and isinstance(n.body[0], ast.Return):
+                    tt = " ".join(ast.unparse(_module_const(ctx, h, x)) for x in ast.walk(n.test) if isinstance(x, (ast.Name, ast.Attribute)))
+                    if "REMOVED_NODES" in tt and isinstance(n.test, ast.Compare) and isinstance(n.test.ops[0], ast.Eq):
+                        mask = _module_const(ctx, h, n.body[0].value)
+            rets = [n for n in h.node.body if isinstance(n, ast.Return)]
+            if rets:
+                default = _module_const(ctx, h, rets[-1].value)
+            return default, mask
+    if isinstance(pv, ast.IfExp):
+        tt = " ".join(ast.unparse(_module_const(ctx, f, x)) for x in ast.walk(pv.test) if isinstance(x, (ast.Name, ast.Attribute)))
+        if "REMOVED_NODES" in tt and isinstance(pv.test, ast.Compare) and isinstance(pv.test.ops[0], ast.Eq):
+            return _module_const(ctx, f, pv.orelse), _module_const(ctx, f, pv.body)
+    return None, None
+
+
 def padding(ctx):
     chk, repo = ctx.chk, ctx.repo
     multi = repo.find_class("MultiJobShopGraphEnv")
     f = multi.methods.get("_add_padding_to_observation")
     if f is None:
         raise AnalysisError("_add_padding_to_observation vanished")
-    default = None
-    mask = None
-    for n in own_nodes(f.node):
-        if isinstance(n, (ast.Assign, ast.AnnAssign)) and isinstance(n.value, ast.Call) and (dotted(n.value.func) or "").endswith("defaultdict") and n.value.args:
-            lam = n.value.args[0]
-            if isinstance(lam, ast.Lambda):
-                default = lam.body
-        if isinstance(n, ast.Assign) and isinstance(n.targets[0], ast.Subscript) and "REMOVED_NODES" in ast.unparse(n.targets[0].slice):
-            mask = n.value
+    ff = ctx.norm.flat(f)
+    fw0 = [n for n in own_nodes(ff.node) if isinstance(n, ast.Call) and (dotted(n.func) or "") == "add_padding"]
+    if not fw0:
+        raise AnalysisError("_add_padding_to_observation: add_padding call not found")
+    pv = next((k.value for k in fw0[0].keywords if k.arg == "padding_value"), fw0[0].args[2] if len(fw0[0].args) > 2 else None)
+    default, mask = _fill_values(ctx, ff, f, pv)
     if default is None or mask is None:
         raise AnalysisError("_add_padding_to_observation: fill values not recognised")
     dv = linear(default)
@@ -483,7 +543,7 @@ def padding(ctx):
     else:
         chk.violation("R18.e", f, mask, f"the removed-nodes mask is padded with `{ast.unparse(mask)}`: padded (non-existent) nodes appear present", loc=f.loc(mask))
     # the padding value must be forwarded to add_padding
-    fw = [n for n in own_nodes(f.node) if isinstance(n, ast.Call) and (dotted(n.func) or "") == "add_padding"]
+    fw = fw0
     if not fw or not any(k.arg == "padding_value" for k in fw[0].keywords):
         chk.violation("R18.e", f, fw[0] if fw else None, "the per-key fill value is not passed to add_padding")
     ap = repo.find_function("add_padding")
@@ -551,11 +611,16 @@ def freshness(ctx):
     if len(loops) != 1:
         raise AnalysisError("_add_padding_to_observation: loop not recognised")
     lp = loops[0]
-    direct = [
-        st for st in lp.body
-        if isinstance(st, ast.Assign) and isinstance(st.targets[0], ast.Subscript) and isinstance(st.value, ast.Call)
-        and (dotted(st.value.func) or "") == "add_padding"
-    ]
+    def _pad_assigns(stmts):
+        out = []
+        for st in stmts:
+            if isinstance(st, ast.Assign) and isinstance(st.targets[0], ast.Subscript) and isinstance(st.value, ast.Call) and (dotted(st.value.func) or "") == "add_padding":
+                out.append(st)
+            elif isinstance(st, ast.If) and "isinstance" in ast.unparse(st.test) and "ndarray" in ast.unparse(st.test) and not st.orelse:
+                out += _pad_assigns(st.body)
+        return out
+
+    direct = _pad_assigns(lp.body)
     if direct:
         chk.ok("R18.f", f.qualname, f.loc(direct[0]), "every array is re-padded into a fresh array on every call")
     else:
